@@ -133,11 +133,13 @@ class C14(Check):
             elif t.type == FE:
                 depth -= 1
                 if depth == 0:
-                    expected.append((fstart, off(t.end), "fstring"))
+                    expected.append((fstart, off(t.start) + len(t.string), "fstring"))
             elif depth == 0 and t.type == tokenize.STRING:
-                expected.append((off(t.start), off(t.end), "string"))
+                # the end is derived from the token text: CPython 3.12.1 reports a wrong end column for a string that
+                # continues on a second line when non-ASCII characters precede it on its first line
+                expected.append((off(t.start), off(t.start) + len(t.string), "string"))
             elif depth == 0 and t.type == tokenize.COMMENT:
-                expected.append((off(t.start), off(t.end), "comment"))
+                expected.append((off(t.start), off(t.start) + len(t.string), "comment"))
         res["n"] += 1
         try:
             got = [(s, e) for s, e, g in simplify.ignored_regions(src)]
